@@ -479,7 +479,13 @@ func (c *converter) AppCall(calls []transpiler.AppCall, valueUsed bool) ([]strin
 		if len(argsCopy) > 0 {
 			space = " "
 		}
-		callStrings = append(callStrings, fmt.Sprintf("%s%s%s", call.Name(), space, strings.Join(argsCopy, " ")))
+		name := call.Name()
+
+		// A program path which contains whitespaces must be quoted as well.
+		if strings.ContainsAny(name, " \t") {
+			name = fmt.Sprintf("\"%s\"", name)
+		}
+		callStrings = append(callStrings, fmt.Sprintf("%s%s%s", name, space, strings.Join(argsCopy, " ")))
 	}
 	callString := strings.Join(callStrings, " | ")
 
